@@ -116,7 +116,7 @@ fn kcmds_for(it: &mut Interner, details: &Value, evs: &[Value], ca_before_cmd_cl
 /// tell (C14): manifest number = CRL number = stored revision number, this_update <= now < next_update for both,
 /// the manifest lists exactly the CRL plus the published objects, and the CRL carries exactly the stored
 /// revocations. Returns descriptions of what is wrong.
-fn check_signed_sets(objs: &Value, now: i64) -> Vec<String> {
+fn check_signed_sets(objs: &Value, now: i64, publish_next_hours: i64, jitter_hours: i64) -> Vec<String> {
     use base64::Engine;
     use rpki::repository::{crl::Crl, manifest::Manifest};
     let mut bad = Vec::new();
@@ -137,6 +137,12 @@ fn check_signed_sets(objs: &Value, now: i64) -> Vec<String> {
             let (mt, mnx) = (mft.content().this_update().timestamp(), mft.content().next_update().timestamp());
             let (ct, cnx) = (crl.this_update().timestamp(), crl.next_update().timestamp());
             if !(mt <= now && now < mnx) || !(ct <= now && now < cnx) { bad.push(format!("class {c} {set_name}: validity window does not contain now: mft [{mt},{mnx}) crl [{ct},{cnx}) now {now}")); }
+            // "refreshed in time": the window runs from five minutes before the issue to the configured number of hours
+            // after it, plus a jitter of at most the configured hours - never less than the configured hours
+            let (lo, hi) = (publish_next_hours * 3600 + 300 - 90, (publish_next_hours + jitter_hours) * 3600 + 300 + 90);
+            if mnx - mt < lo || mnx - mt > hi || cnx - ct < lo || cnx - ct > hi {
+                bad.push(format!("class {c} {set_name}: window length mft {} s, crl {} s, configured {publish_next_hours} h plus at most {jitter_hours} h of jitter", mnx - mt, cnx - ct));
+            }
             let published = set.get("published_objects").and_then(|p| p.as_object()).map(|o| o.len()).unwrap_or(0);
             if mft.content().len() != published + 1 { bad.push(format!("class {c} {set_name}: manifest lists {} files, expected {}", mft.content().len(), published + 1)); }
             let revs = set.get("revocations").and_then(|r| r.as_array()).cloned().unwrap_or_default();
@@ -302,7 +308,8 @@ fn emit_cases(sys: &Sys, it: &mut Interner, before: &Snapshot, after: &Snapshot,
             let idx = o.w.total;
             o.impl_failures.push(json!({"index": idx, "history": hist, "ca": h, "op": op_desc, "class": {"object_for_removed_configuration": true}, "what": what}));
         }
-        for what in check_signed_sets(&after.objs[h], now) {
+        let (publish_next_hours, publish_jitter_hours) = { let t = &sys.krill.config().issuance_timing; (t.timing_publish_next_hours as i64, t.timing_publish_next_jitter_hours as i64) };
+        for what in check_signed_sets(&after.objs[h], now, publish_next_hours, publish_jitter_hours) {
             let idx = o.w.total;
             o.impl_failures.push(json!({"index": idx, "history": hist, "ca": h, "op": op_desc, "class": {"signed_sets": true}, "what": what}));
         }
